@@ -1308,3 +1308,247 @@ Proof.
     rewrite fold_env_hole. apply fold_hdr_inst.
   - rewrite (base_args_inst0 b c _ (esc_apply (b_esc b) x)). reflexivity.
 Qed.
+
+(* ------------------------------------------------------------------ explicit shapes: redirect classes and 405 *)
+Lemma lookup_aset_same k v a : lookup k (aset k v a) = Some v.
+Proof.
+  induction a as [|[k' v'] r IH]; simpl; [rewrite text_eqb_refl; reflexivity|].
+  destruct (text_eqb k k') eqn:E; simpl; rewrite E; [reflexivity|exact IH].
+Qed.
+
+Lemma lookup_aset_other k k' v a : k <> k' -> lookup k (aset k' v a) = lookup k a.
+Proof.
+  intros Hne. induction a as [|[k2 v2] r IH]; simpl.
+  - destruct (text_eqb k k') eqn:E; [apply text_eqb_eq in E; contradiction|reflexivity].
+  - destruct (text_eqb k' k2) eqn:E2; simpl.
+    + apply text_eqb_eq in E2. subst k2.
+      destruct (text_eqb k k') eqn:E; [apply text_eqb_eq in E; contradiction|reflexivity].
+    + destruct (text_eqb k k2); [reflexivity|exact IH].
+Qed.
+
+Definition hdr_clear (ks : list text) (hs : list (text * text)) : Prop :=
+  Forall (fun kv => ~ In (lower (fst kv)) ks) hs.
+Definition env_clear (ks : list text) (es : list (text * text)) : Prop :=
+  Forall (fun kv => env_skipped (fst kv) = true \/ ~ In (fst kv) ks) es.
+
+Lemma lookup_fold_hdr f ks k l : In k ks -> hdr_clear ks l -> forall a,
+  lookup k (fold_left (hdr_step f) l a) = lookup k a.
+Proof.
+  intros Hk. induction 1 as [|[k' v'] r Hh _ IH]; intros a; simpl; [reflexivity|].
+  rewrite IH. unfold hdr_step. cbn [fst snd]. apply lookup_aset_other.
+  intros ->. apply Hh. exact Hk.
+Qed.
+
+Lemma lookup_fold_env f ks k l : In k ks -> env_clear ks l -> forall a,
+  lookup k (fold_left (env_step f) l a) = lookup k a.
+Proof.
+  intros Hk. induction 1 as [|[k' v'] r Hh _ IH]; intros a; simpl; [reflexivity|].
+  rewrite IH. unfold env_step. cbn [fst snd] in *. destruct (env_skipped k') eqn:E; [reflexivity|].
+  apply lookup_aset_other. intros ->. destruct Hh as [Hh|Hh]; [congruence|apply Hh; exact Hk].
+Qed.
+
+(* -- redirect classes *)
+Definition k_location : text := [108; 111; 99; 97; 116; 105; 111; 110].
+Definition move_keys : list text := [s_k_expl; k_location; s_k_detail; s_k_html_comment].
+Definition M1 : text :=   (* "; you should be redirected automatically." newline *)
+  [59; 32; 121; 111; 117; 32; 115; 104; 111; 117; 108; 100; 32; 98; 101; 32; 114; 101; 100; 105; 114; 101; 99; 116;
+   101; 100; 32; 97; 117; 116; 111; 109; 97; 116; 105; 99; 97; 108; 108; 121; 46; 10].
+Definition move_tokens : list tok :=
+  [TRef s_k_expl; TChar 32; TRef k_location] ++ map TChar M1 ++ [TRef s_k_detail; TChar 10; TRef s_k_html_comment].
+
+Definition tok_eqb (a b : tok) : bool :=
+  match a, b with
+  | TChar x, TChar y => x =? y
+  | TDollar, TDollar => true
+  | TRef x, TRef y => text_eqb x y
+  | TInvalid, TInvalid => true
+  | _, _ => false
+  end.
+Fixpoint toks_eqb (a b : list tok) : bool :=
+  match a, b with
+  | [], [] => true
+  | x :: a', y :: b' => tok_eqb x y && toks_eqb a' b'
+  | _, _ => false
+  end.
+Lemma tok_eqb_eq a b : tok_eqb a b = true -> a = b.
+Proof.
+  destruct a, b; simpl; try discriminate; try reflexivity.
+  - intros H. apply N.eqb_eq in H. congruence.
+  - intros H. apply text_eqb_eq in H. congruence.
+Qed.
+Lemma toks_eqb_eq a : forall b, toks_eqb a b = true -> a = b.
+Proof.
+  induction a as [|x a IH]; intros [|y b]; simpl; try discriminate; [reflexivity|].
+  intros H. apply andb_true_iff in H as [H1 H2]. apply tok_eqb_eq in H1. apply IH in H2. congruence.
+Qed.
+
+(* every class whose constructor takes location= uses the redirect template (and not the default one) *)
+Lemma classes_move_ok :
+  forallb (fun c => implb (c_move c) (negb (c_default_tmpl c) && toks_eqb (tokenise (c_tmpl c)) move_tokens)) classes = true.
+Proof. vm_compute. reflexivity. Qed.
+
+Lemma move_class_facts n c : find_cls n classes = Some c -> c_move c = true ->
+  c_default_tmpl c = false /\ tokenise (c_tmpl c) = move_tokens.
+Proof.
+  intros Hf Hm. apply find_cls_In in Hf as [Hin _].
+  pose proof classes_move_ok as H. rewrite forallb_forall in H. specialize (H c Hin).
+  rewrite Hm in H. simpl in H. apply andb_true_iff in H as [H1 H2].
+  split; [destruct (c_default_tmpl c); [discriminate|reflexivity]|apply toks_eqb_eq; exact H2].
+Qed.
+
+Definition move_body (c : cls) (i : input) : text :=
+  html_escape (expl_of c i) ++ [32] ++ html_escape (i_location i) ++ M1 ++
+  html_escape (or_empty (i_detail i)) ++ [10] ++ html_comment_of bh i.
+
+(* HTML page of a redirect class (no body_template=), provided no extra response header and
+   no (unskipped) environ key is named explanation / location / detail / html_comment *)
+Lemma html_move_shape c i :
+  c_move c = true -> c_default_tmpl c = false -> tokenise (c_tmpl c) = move_tokens -> i_tmpl i = None ->
+  hdr_clear move_keys (i_headers i) -> env_clear move_keys (i_environ i) ->
+  page_text spec_policy bh c i =
+  Ok (H1 ++ status_of c ++ H2 ++ status_of c ++ H3 ++ move_body c i ++ H4).
+Proof.
+  intros Hm Hd Ht Hn Hh He. rewrite page_text_unfold. unfold tmpl_of, is_custom. rewrite Hn, Hd. cbn [negb].
+  rewrite build_args_spec. unfold substitute. rewrite Ht. unfold headers_of. rewrite Hm.
+  cbn [app fold_left]. unfold hdr_step at 2. cbn [fst snd].
+  set (A0 := fold_left (env_step (b_esc bh)) (i_environ i) (base_args bh c i)).
+  set (A1 := aset (lower [76; 111; 99; 97; 116; 105; 111; 110]) (esc_apply (b_esc bh) (i_location i)) A0).
+  set (A := fold_left (hdr_step (b_esc bh)) (i_headers i) A1).
+  assert (L0 : forall k, In k move_keys -> lookup k A = lookup k A1).
+  { intros k Hk. unfold A. apply (lookup_fold_hdr _ move_keys); assumption. }
+  assert (L00 : forall k, In k move_keys -> lookup k A0 = lookup k (base_args bh c i)).
+  { intros k Hk. unfold A0. apply (lookup_fold_env _ move_keys); assumption. }
+  assert (Le : lookup s_k_expl A = Some (html_escape (expl_of c i))).
+  { rewrite L0 by (simpl; auto). unfold A1. rewrite lookup_aset_other by (vm_compute; discriminate).
+    rewrite L00 by (simpl; auto). reflexivity. }
+  assert (Ll : lookup k_location A = Some (html_escape (i_location i))).
+  { rewrite L0 by (simpl; auto). unfold A1. change (lower [76; 111; 99; 97; 116; 105; 111; 110]) with k_location.
+    apply lookup_aset_same. }
+  assert (Ld : lookup s_k_detail A = Some (html_escape (or_empty (i_detail i)))).
+  { rewrite L0 by (simpl; auto). unfold A1. rewrite lookup_aset_other by (vm_compute; discriminate).
+    rewrite L00 by (simpl; auto). reflexivity. }
+  assert (Lc : lookup s_k_html_comment A = Some (html_comment_of bh i)).
+  { rewrite L0 by (simpl; auto 6). unfold A1. rewrite lookup_aset_other by (vm_compute; discriminate).
+    rewrite L00 by (simpl; auto 6). reflexivity. }
+  unfold move_tokens. cbn [app render]. rewrite Le. cbn [render]. rewrite Ll.
+  rewrite render_chars. cbn [render]. rewrite Ld, Lc. cbn [rmap rbind app].
+  unfold page_of. cbn [bh b_page]. rewrite html_page_render. unfold move_body.
+  cbn [app]. repeat (rewrite <- app_assoc || rewrite <- app_comm_cons). rewrite ?app_nil_r. reflexivity.
+Qed.
+
+(* -- 405 Method Not Allowed *)
+Definition n_405 : text := [72; 84; 84; 80; 77; 101; 116; 104; 111; 100; 78; 111; 116; 65; 108; 108; 111; 119; 101; 100].
+Definition k_request_method : text := [82; 69; 81; 85; 69; 83; 84; 95; 77; 69; 84; 72; 79; 68].
+Definition MNA1 : text := [84; 104; 101; 32; 109; 101; 116; 104; 111; 100; 32].   (* "The method " *)
+Definition MNA2 : text := [32; 105; 115; 32; 110; 111; 116; 32; 97; 108; 108; 111; 119; 101; 100; 32; 102; 111; 114; 32; 116; 104; 105; 115; 32; 114; 101; 115; 111; 117; 114; 99; 101; 46; 32].   (* " is not allowed for this resource. " *)
+Definition mna_tokens : list tok :=
+  map TChar MNA1 ++ [TRef k_request_method] ++ map TChar MNA2 ++ [TRef s_k_br; TRef s_k_br; TChar 10; TRef s_k_detail].
+Definition mna_keys : list text := [k_request_method; s_k_br; s_k_detail].
+
+Lemma mna_class_facts : exists c, find_cls n_405 classes = Some c /\ c_default_tmpl c = false /\ c_move c = false /\
+  c_empty c = false /\ tokenise (c_tmpl c) = mna_tokens.
+Proof.
+  destruct (find_cls n_405 classes) as [c|] eqn:Hf; [|vm_compute in Hf; discriminate].
+  exists c. split; [reflexivity|].
+  vm_compute in Hf. injection Hf as <-. repeat split; vm_compute; reflexivity.
+Qed.
+
+Lemma lower_no_upper k c : In c (lower k) -> ~ ((65 <=? c) && (c <=? 90) = true).
+Proof.
+  unfold lower. rewrite in_map_iff. intros [x [Hx _]] H. unfold lower1 in Hx.
+  destruct ((65 <=? x) && (x <=? 90)) eqn:E; lia.
+Qed.
+
+Lemma lower_ne_request_method k : lower k <> k_request_method.
+Proof.
+  intros H. apply (lower_no_upper k 82); [rewrite H; left; reflexivity|reflexivity].
+Qed.
+
+(* HTML page of HTTPMethodNotAllowed: the request method taken from the environ, escaped.
+   environ = e1 ++ (REQUEST_METHOD, m) :: e2 with no later REQUEST_METHOD; no header or
+   (unskipped) environ key named br / detail *)
+Lemma html_405_shape c i e1 m e2 :
+  c_move c = false -> c_default_tmpl c = false -> tokenise (c_tmpl c) = mna_tokens -> i_tmpl i = None ->
+  i_environ i = e1 ++ (k_request_method, m) :: e2 ->
+  env_clear [k_request_method] e2 ->
+  hdr_clear [s_k_br; s_k_detail] (i_headers i) -> env_clear [s_k_br; s_k_detail] (i_environ i) ->
+  page_text spec_policy bh c i =
+  Ok (H1 ++ status_of c ++ H2 ++ status_of c ++ H3 ++
+      (MNA1 ++ html_escape m ++ MNA2 ++ s_br_html ++ s_br_html ++ [10] ++ html_escape (or_empty (i_detail i))) ++ H4).
+Proof.
+  intros Hm Hd Ht Hn Henv He2 Hh He. rewrite page_text_unfold. unfold tmpl_of, is_custom. rewrite Hn, Hd. cbn [negb].
+  rewrite build_args_spec. unfold substitute. rewrite Ht. unfold headers_of. rewrite Hm. cbn [app].
+  set (A0 := fold_left (env_step (b_esc bh)) (i_environ i) (base_args bh c i)).
+  set (A := fold_left (hdr_step (b_esc bh)) (i_headers i) A0).
+  assert (Lm : lookup k_request_method A = Some (html_escape m)).
+  { unfold A.
+    assert (Hc : hdr_clear [k_request_method] (i_headers i)).
+    { unfold hdr_clear. apply Forall_forall. intros kv _ [H|[]]. symmetry in H. exact (lower_ne_request_method _ H). }
+    rewrite (lookup_fold_hdr _ [k_request_method]) by (simpl; auto).
+    unfold A0. rewrite Henv, fold_left_app. cbn [fold_left].
+    rewrite (lookup_fold_env _ [k_request_method]) by (simpl; auto).
+    unfold env_step at 1. cbn [fst snd].
+    replace (env_skipped k_request_method) with false by (vm_compute; reflexivity).
+    apply lookup_aset_same. }
+  assert (Lb : lookup s_k_br A = Some s_br_html).
+  { unfold A. rewrite (lookup_fold_hdr _ [s_k_br; s_k_detail]) by (simpl; auto).
+    unfold A0. rewrite (lookup_fold_env _ [s_k_br; s_k_detail]) by (simpl; auto). reflexivity. }
+  assert (Ld : lookup s_k_detail A = Some (html_escape (or_empty (i_detail i)))).
+  { unfold A. rewrite (lookup_fold_hdr _ [s_k_br; s_k_detail]) by (simpl; auto).
+    unfold A0. rewrite (lookup_fold_env _ [s_k_br; s_k_detail]) by (simpl; auto). reflexivity. }
+  unfold mna_tokens. rewrite render_chars. cbn [app render]. rewrite Lm. rewrite render_chars.
+  cbn [render]. rewrite Lb, Ld. cbn [rmap rbind app].
+  unfold page_of. cbn [bh b_page]. rewrite html_page_render.
+  cbn [app]. repeat (rewrite <- app_assoc || rewrite <- app_comm_cons). rewrite ?app_nil_r. reflexivity.
+Qed.
+
+Lemma html_move_response i c :
+  find_cls (i_cls i) classes = Some c -> c_empty c = false -> c_move c = true -> i_tmpl i = None ->
+  chosen_type i = t_html -> hdr_clear move_keys (i_headers i) -> env_clear move_keys (i_environ i) ->
+  spec i = Some (rmap (mkOutput (status_of c) t_html cs_utf8)
+                   (utf8_bytes (H1 ++ status_of c ++ H2 ++ status_of c ++ H3 ++ move_body c i ++ H4))).
+Proof.
+  intros Hf He Hm Hn Hc Hh Hen. rewrite (spec_html_unfold i c Hf He Hc).
+  destruct (move_class_facts _ c Hf Hm) as [Hd Ht].
+  rewrite (html_move_shape c i Hm Hd Ht Hn Hh Hen). reflexivity.
+Qed.
+
+Lemma html_405_response i e1 m e2 :
+  i_cls i = n_405 -> i_tmpl i = None -> chosen_type i = t_html ->
+  i_environ i = e1 ++ (k_request_method, m) :: e2 -> env_clear [k_request_method] e2 ->
+  hdr_clear [s_k_br; s_k_detail] (i_headers i) -> env_clear [s_k_br; s_k_detail] (i_environ i) ->
+  exists st, spec i = Some (rmap (mkOutput st t_html cs_utf8)
+    (utf8_bytes (H1 ++ st ++ H2 ++ st ++ H3 ++
+       (MNA1 ++ html_escape m ++ MNA2 ++ s_br_html ++ s_br_html ++ [10] ++ html_escape (or_empty (i_detail i))) ++ H4))).
+Proof.
+  intros Hn Ht Hc Henv He2 Hh He.
+  destruct mna_class_facts as (c & Hf & Hd & Hm & Hem & Htok).
+  exists (status_of c). rewrite <- Hn in Hf. rewrite (spec_html_unfold i c Hf Hem Hc).
+  rewrite (html_405_shape c i e1 m e2 Hm Hd Htok Ht Henv He2 Hh He). reflexivity.
+Qed.
+
+(* the hypotheses are satisfiable: a CGI-style environ and an ordinary extra header *)
+Ltac not_in := let H := fresh in intro H; simpl in H; repeat (destruct H as [H|H]; [discriminate H|]); exact H.
+
+Example ex_clear :
+  env_clear move_keys ex_env /\ hdr_clear move_keys [([88; 45; 70; 111; 111], [60])] /\
+  env_clear [s_k_br; s_k_detail] ex_env /\ env_clear [k_request_method] [].
+Proof.
+  split; [|split; [|split]].
+  - constructor; [right; not_in|constructor].
+  - constructor; [not_in|constructor].
+  - constructor; [right; not_in|constructor].
+  - constructor.
+Qed.
+
+Example ex_405 :
+  exists st, spec (mkInput n_405 (Some [60]) None None [] [] ([(k_request_method, [60; 36; 98; 114])]) None [t_html]) =
+    Some (rmap (mkOutput st t_html cs_utf8)
+      (utf8_bytes (H1 ++ st ++ H2 ++ st ++ H3 ++
+         (MNA1 ++ [38; 108; 116; 59; 36; 98; 114] ++ MNA2 ++ s_br_html ++ s_br_html ++ [10] ++ [38; 108; 116; 59]) ++ H4))).
+Proof.
+  apply (html_405_response _ [] [60; 36; 98; 114] []); try reflexivity.
+  - constructor.
+  - constructor.
+  - constructor; [right; not_in|constructor].
+Qed.
